@@ -88,13 +88,21 @@ thread_local! {
     static SCRATCH: Scratch = Scratch::new();
 }
 
+/// A fresh parser holding the model map, built and validated on a NEW thread, so that no
+/// per-thread state of the long-lived parser's thread can leak into the expected result.
 fn fresh(model: &BTreeMap<PathBuf, String>) -> Result<Res, String> {
-    imp::guarded(|| {
-        let mut p: Parser<PathBuf> = Parser::new();
-        for (id, c) in model {
-            p.add_content(id.clone(), c);
-        }
-        p.validate()
+    std::thread::scope(|sc| {
+        sc.spawn(|| {
+            imp::guarded(|| {
+                let mut p: Parser<PathBuf> = Parser::new();
+                for (id, c) in model {
+                    p.add_content(id.clone(), c);
+                }
+                p.validate()
+            })
+        })
+        .join()
+        .map_err(|_| "fresh-parser thread panicked".to_owned())?
     })
 }
 
@@ -202,6 +210,9 @@ pub fn fixed_contents() -> Vec<String> {
         "package a; parcelable P { int x; }".to_owned(),
         "package a; enum P { A, B }".to_owned(),
         "package a; interface {".to_owned(),
+        // two texts that recover to the SAME tree (same ranges) but different syntax diagnostics
+        "package a; parcelable P { int x; - }".to_owned(),
+        "package a; parcelable P { int x; = }".to_owned(),
     ]
 }
 
@@ -209,7 +220,7 @@ pub fn fixed_contents() -> Vec<String> {
 fn alphabet() -> Vec<Op> {
     let mut v = Vec::new();
     for i in 0..3 {
-        for c in 0..4 {
+        for c in 0..NC {
             v.push(Op::Add(i, c));
         }
     }
@@ -218,18 +229,20 @@ fn alphabet() -> Vec<Op> {
     }
     v.push(Op::Validate);
     for i in 0..3 {
-        v.push(Op::AddFileOk(i, (i + 1) % 4));
+        v.push(Op::AddFileOk(i, (i + 1) % NC));
     }
     v.push(Op::AddFileMissing(0));
     v.push(Op::AddFileBad(1));
     v
 }
 
+const NC: usize = 6; // number of fixed contents
+
 fn states() -> Vec<Vec<Option<usize>>> {
     let mut v = Vec::new();
-    for a in 0..5 {
-        for b in 0..5 {
-            for c in 0..5 {
+    for a in 0..=NC {
+        for b in 0..=NC {
+            for c in 0..=NC {
                 let f = |x: usize| if x == 0 { None } else { Some(x - 1) };
                 v.push(vec![f(a), f(b), f(c)]);
             }
@@ -273,7 +286,7 @@ impl Prop for C12 {
         "C12"
     }
     fn rule(&self) -> String {
-        "histories over {add/replace(id, content), remove(id) (present or absent), validate (called twice, must be idempotent), add_file(readable | missing | invalid UTF-8)} on a Parser<PathBuf> with files in a per-run scratch directory. After EVERY step validate() of the long-lived parser is compared (key set, id tags, trees by ==, diagnostics as position-sorted multisets) with validate() of a fresh parser loaded with the model map id -> latest content. Enumerated part: all sequences over a 21-operation alphabet (3 ids x 4 interacting contents: interface importing a.P, parcelable a.P, enum a.P, malformed text) of length <= 3 (thorough 4) from the empty parser and of length <= 1 (thorough 2) from each of the 125 abstract states. Random part: histories of up to 40 operations over 2-6 ids and the texts of a generated project plus mutants. Non-trivial = history contains a replacement or a removal; distinct by (start state, operation sequence, contents).".into()
+        "histories over {add/replace(id, content), remove(id) (present or absent), validate (called twice, must be idempotent), add_file(readable | missing | invalid UTF-8)} on a Parser<PathBuf> with files in a per-run scratch directory. After EVERY step validate() of the long-lived parser is compared (key set, id tags, trees by ==, diagnostics as position-sorted multisets) with validate() of a fresh parser (built on a new thread) loaded with the model map id -> latest content. Enumerated part: all sequences over a 27-operation alphabet (3 ids x 6 interacting contents: interface importing a.P, parcelable a.P, enum a.P, malformed text, and two texts that recover to the same tree with different syntax diagnostics) of length <= 3 (thorough 4) from the empty parser and of length <= 1 (thorough 2) from each of the 343 abstract states. Random part: histories of up to 40 operations over 2-6 ids and the texts of a generated project plus mutants. Non-trivial = history contains a replacement or a removal; distinct by (start state, operation sequence, contents).".into()
     }
     fn random_cases(&self, tier: Tier) -> u64 {
         tier.pick(1_500, 40_000)
@@ -287,7 +300,7 @@ impl Prop for C12 {
     fn enum_count(&self, tier: Tier) -> u64 {
         let a = alphabet().len() as u64;
         let (l0, ls) = enum_layout(tier);
-        a.pow(l0) + 125 * a.pow(ls)
+        a.pow(l0) + (states().len() as u64) * a.pow(ls)
     }
     fn enum_case(&self, env: &Env, idx: u64, st: &mut Stats) -> Result<(), Fail> {
         let alpha = alphabet();
